@@ -128,6 +128,7 @@ class RealEnv(KillState):
             path = _Path
         _OS.makedirs = staticmethod(makedirs)
         _OS.rename = staticmethod(rename)
+        _OS.replace = staticmethod(rename)
 
         class _Environ:
             @staticmethod
